@@ -12,8 +12,16 @@
 //!       passes through is named in the message, every type on a cycle is passed through by some chain, and there is
 //!       no report when nothing is on a cycle.
 //!     Other error codes are deliberately not part of this projection (C04's business).
+//! `c05:gate`    `E019=[alias|…];IFACE=[interface|…];E032=[root:c0.f0,…|…] oracle=ok|FAIL(…)` — the whole cycle gate:
+//!     E032 diagnostics that point at an interface (by span) are listed under IFACE (sorted), those that point at a
+//!     struct/enum under E032 as in `c05:cycles`. The oracle of `c05:cycles` plus: the flagged interfaces are exactly
+//!     the interfaces that reach themselves through base references (closure computed HERE from the AST), and the
+//!     message of each names the interface.
+//! `c05:verdict` `rejected` if there is any error, else `accepted`
 //! `c05:alias`   `E019=[…];E033=<count>;rejected=0|1`
-//! `c05:inherit` `rejected` if there is any error, else `accepted:I0=[all_base_interfaces…]|I1=[…]` (definition order)
+//! `c05:inherit` `rejected:E032@I0|E032@I1|…` if there is any error — every error diagnostic as code@interface, the interface
+//!     being the one whose span equals the diagnostic's span (`-` if it points at anything else), sorted — else
+//!     `accepted:I0=[all_base_interfaces…]|I1=[…]` (definition order)
 #![allow(unused_imports, dead_code)]
 use crate::compile::*;
 use slicec::compilation_state::CompilationState;
@@ -46,7 +54,7 @@ fn leaves(t: &TypeRef, depth: usize, out: &mut Vec<String>) {
 
 fn list(v: &[String]) -> String { format!("[{}]", v.join("|")) }
 
-fn cycles(state: CompilationState, options: SliceOptions) -> String {
+fn cycles(state: CompilationState, options: SliceOptions, gate: bool) -> String {
     let CompilationState { ast, diagnostics, files } = state;
     let diags = diagnostics.into_updated(&ast, &files, &options);
 
@@ -54,6 +62,7 @@ fn cycles(state: CompilationState, options: SliceOptions) -> String {
     let structs: Vec<_> = files.iter().flat_map(|f| f.contents.iter()).filter_map(|d| if let Definition::Struct(p) = d { Some(p.borrow()) } else { None }).collect();
     let enums: Vec<_> = files.iter().flat_map(|f| f.contents.iter()).filter_map(|d| if let Definition::Enum(p) = d { Some(p.borrow()) } else { None }).collect();
     let aliases: Vec<_> = files.iter().flat_map(|f| f.contents.iter()).filter_map(|d| if let Definition::TypeAlias(p) = d { Some(p.borrow()) } else { None }).collect();
+    let ifaces: Vec<_> = files.iter().flat_map(|f| f.contents.iter()).filter_map(|d| if let Definition::Interface(p) = d { Some(p.borrow()) } else { None }).collect();
     let mut types: Vec<TypeInfo> = vec![];
     for s in &structs { types.push(TypeInfo { id: s.module_scoped_identifier(), span: &s.span, fields: s.fields() }); }
     for e in &enums { types.push(TypeInfo { id: e.module_scoped_identifier(), span: &e.span, fields: e.enumerators().into_iter().flat_map(|x| x.fields()).collect() }); }
@@ -76,8 +85,14 @@ fn cycles(state: CompilationState, options: SliceOptions) -> String {
     let mut e032: Vec<String> = vec![];
     let mut e019: Vec<String> = vec![];
     let mut named: BTreeSet<usize> = BTreeSet::new();
+    let mut iface_flagged: Vec<String> = vec![];
     for d in diags.iter().filter(|d| d.level() == DiagnosticLevel::Error) {
         match d.code() {
+            "E032" if gate && d.span().map_or(false, |s| ifaces.iter().any(|i| &i.span == s)) => {
+                let i = ifaces.iter().find(|i| Some(&i.span) == d.span()).unwrap();
+                if !d.message().contains(i.identifier()) { failures.push(format!("the message of the report for interface {} does not name it", i.identifier())); }
+                iface_flagged.push(i.module_scoped_identifier());
+            }
             "E032" => {
                 let root = d.span().and_then(|s| types.iter().position(|t| t.span == s));
                 let Some(root) = root else { failures.push("an E032 diagnostic does not point at a struct or enum".into()); e032.push("?".into()); continue };
@@ -113,10 +128,41 @@ fn cycles(state: CompilationState, options: SliceOptions) -> String {
     }
     e032.sort();
     e019.sort();
-    for i in 0..n { if reach[i][i] && !named.contains(&i) { failures.push(format!("{} contains itself but no reported cycle names it", types[i].id)); } }
+    // (in `gate` mode with alias errors the alias gate returned first: the detector did not run)
+    let detector_ran = !(gate && !e019.is_empty());
+    for i in 0..n { if detector_ran && reach[i][i] && !named.contains(&i) { failures.push(format!("{} contains itself but no reported cycle names it", types[i].id)); } }
     if oncycle.is_empty() && !e032.is_empty() { failures.push("a cycle is reported although no type contains itself".into()); }
+    if gate {
+        // which interfaces inherit from themselves, from the AST's base references
+        let m = ifaces.len();
+        let ids: Vec<String> = ifaces.iter().map(|i| i.module_scoped_identifier()).collect();
+        let mut r = vec![vec![false; m]; m];
+        for (a, i) in ifaces.iter().enumerate() {
+            for b in &i.bases {
+                if let TypeRefDefinition::Patched(_) = &b.definition {
+                    if let Some(j) = ids.iter().position(|x| x == &b.definition().module_scoped_identifier()) { r[a][j] = true; }
+                }
+            }
+        }
+        for k in 0..m { for a in 0..m { if r[a][k] { for b in 0..m { if r[k][b] { r[a][b] = true; } } } } }
+        iface_flagged.sort();
+        let mut looping: Vec<String> = (0..m).filter(|&a| r[a][a]).map(|a| ids[a].clone()).collect();
+        looping.sort();
+        // the alias gate returns before the interface gate: nothing is expected then
+        if e019.is_empty() && looping != iface_flagged {
+            failures.push(format!("interfaces that inherit from themselves: {}; interfaces reported: {}", list(&looping), list(&iface_flagged)));
+        }
+        let oracle = if failures.is_empty() { "ok".to_string() } else { format!("FAIL({})", failures.join("; ")) };
+        return format!("E019={};IFACE={};E032={} oracle={}", list(&e019), list(&iface_flagged), list(&e032), oracle);
+    }
     let oracle = if failures.is_empty() { "ok".to_string() } else { format!("FAIL({})", failures.join("; ")) };
     format!("E032={};E019={};oncycle={} oracle={}", list(&e032), list(&e019), list(&oncycle), oracle)
+}
+
+fn verdict(state: CompilationState, options: SliceOptions) -> String {
+    let CompilationState { ast, diagnostics, files } = state;
+    let diags = diagnostics.into_updated(&ast, &files, &options);
+    if diags.iter().any(|d| d.level() == DiagnosticLevel::Error) { "rejected".to_string() } else { "accepted".to_string() }
 }
 
 fn alias(state: CompilationState, options: SliceOptions) -> String {
@@ -134,15 +180,25 @@ fn alias(state: CompilationState, options: SliceOptions) -> String {
 fn inherit(state: CompilationState, options: SliceOptions) -> String {
     let CompilationState { ast, diagnostics, files } = state;
     let diags = diagnostics.into_updated(&ast, &files, &options);
-    if diags.iter().any(|d| d.level() == DiagnosticLevel::Error) { return "rejected".to_string(); }
-    let v: Vec<String> = files.iter().flat_map(|f| f.contents.iter()).filter_map(|d| if let Definition::Interface(p) = d { Some(p.borrow()) } else { None })
+    let ifaces: Vec<_> = files.iter().flat_map(|f| f.contents.iter()).filter_map(|d| if let Definition::Interface(p) = d { Some(p.borrow()) } else { None }).collect();
+    let errors: Vec<&Diagnostic> = diags.iter().filter(|d| d.level() == DiagnosticLevel::Error).collect();
+    if !errors.is_empty() {
+        // WHICH element every error points at: the interface whose span is the diagnostic's span, `-` for anything else
+        let mut v: Vec<String> = errors.iter().map(|d| format!("{}@{}", d.code(),
+            d.span().and_then(|s| ifaces.iter().find(|i| &i.span == s)).map_or("-".to_string(), |i| i.identifier().to_string()))).collect();
+        v.sort();
+        return format!("rejected:{}", v.join("|"));
+    }
+    let v: Vec<String> = ifaces.iter()
         .map(|i| format!("{}=[{}]", i.identifier(), i.all_base_interfaces().iter().map(|b| b.identifier().to_string()).collect::<Vec<_>>().join(","))).collect();
     format!("accepted:{}", v.join("|"))
 }
 
 pub fn project(state: CompilationState, options: SliceOptions, name: &str) -> String {
     match name {
-        "cycles" => cycles(state, options),
+        "cycles" => cycles(state, options, false),
+        "gate" => cycles(state, options, true),
+        "verdict" => verdict(state, options),
         "alias" => alias(state, options),
         "inherit" => inherit(state, options),
         _ => format!("unknown-projection:c05:{}", name),
